@@ -340,3 +340,4 @@ def check(ctx):
     r_separators(ctx, 'R16.3')
     r_name_tables(ctx, 'R16.6')
     r_number_tokens(ctx, 'R16.7')
+    c04.r_reviewed_grammar(ctx, 'R16.8', roots={'program'})
